@@ -368,6 +368,22 @@ def main(argv):
             cases.append(case_term(iso, j, inp, rest, o))
             meta.append(describe(iso, j, ai, inp, rest, o))
             direct_case(fails, iso, j, ai, inp, rest, o, rng, full=(i < 12))
+    # fixed inputs of the recorded findings (known_findings.jsonl): re-examined on every run whatever the seed
+    class FixedFactor(random.Random):
+        def choice(self, seq):          # the exposure factor of the monotonicity statement: always 2
+            return 2.0 if list(seq) == [1.5, 2.0, 10.0] else random.Random.choice(self, seq)
+    WITNESS = [("26-Mg", "Mg-28", "2n", (1.0, 805.0, 0.0, 0.0, 0.087)), ("133-Cs", "Cs-135", "2n", (1.0, 1049.0, 0.0, 0.0, 0.0037)),
+               ("175-Lu", "Lu-177", "2n", (1.0, 1e4, 0.0, 0.0, 0.003)), ("144-Sm", "Pm-145", "b", (1.0, 1e8, 0.0, 0.0, 10.0)),
+               ("151-Eu", "Gd-152", "b", (1.0, 1e8, 0.0, 0.0, 10.0))]
+    for name, daughter, reaction, inp in WITNESS:
+        for iso, j, ai in rows:
+            if "%d-%s" % (iso.isotope, iso.symbol) == name and ai.daughter == daughter and ai.reaction == reaction:
+                rest = [0, 1.0]
+                o = one_row(iso, ai, inp[0], act.ActivationEnvironment(inp[1], inp[2], inp[3]), inp[4], rest)
+                cases.append(case_term(iso, j, inp, rest, o))
+                meta.append(describe(iso, j, ai, inp, rest, o))
+                direct_case(fails, iso, j, ai, inp, rest, o, FixedFactor(0), full=True)
+                break
     direct_elements(fails, random.Random(seed + 17), 2 if npts <= 10 else 6)
     direct_samples(fails, random.Random(seed + 29), 3 if npts <= 10 else 12)
     direct_table(fails)
